@@ -88,7 +88,6 @@ pub trait DynVec1 {
     where
         Self: Sized,
     {
-        let dtype = self.get_dtype();
-        self.cast_into(dtype)
+        self.cast_into(T::dtype())
     }
 }
